@@ -109,9 +109,6 @@ Proof.
 Qed.
 
 (* ------------------------------------------------------------------ record *)
-Lemma rep_nones n : 0 <= n -> rep (if n =? 0 then BUnknown 0 else BUnknown 0) [] -> True.
-Proof. auto. Qed.
-
 Lemma fresh_field len :
   0 <= len ->
   exists nb,
